@@ -152,6 +152,12 @@ class GDataConverter(XMLSchemaConverter):
                 attributes[ns_name] = value
             elif not isinstance(value, MutableSequence) or not value:
                 ns_name = self.unmap_qname(name, xmlns=self.get_xmlns_from_data(value))
+                if isinstance(value, MutableSequence) and xsd_element.match_child(ns_name) is None:
+                    # An empty list that matches no child can be the value of a list-typed attribute
+                    attr_name = self.unmap_qname(name, xsd_element.attributes)
+                    if attr_name in xsd_element.attributes:
+                        attributes[attr_name] = value
+                        continue
                 content.append((ns_name, value))
             elif isinstance(value[0], (MutableMapping, MutableSequence)):
                 for item in value:
